@@ -39,6 +39,12 @@ def abstract_program(seed, broken=False):
     add("bump", "bump :: (comptime T: type, x: T) -> T { x + T.(@C1@) }")
     add("pick", "pick :: (e: @E1@) -> i32 { switch v in e { .A => v.a, .B => i32.(v), .C => 0 - i32.(@C2@), } }")
     add("wrap", "wrap :: (x: i32) -> @D1@ { @D1@.(x * 2) }")
+    # globals whose ANNOTATION is another global (a type defined elsewhere, possibly later), and
+    # globals that refer to them at global level
+    add("K0", "K0 : @D1@ : comptime { @D1@.(%d) };" % r.randrange(1, 90))
+    add("K1", "K1 :: comptime { i32.(@K0@) + %d };" % r.randrange(1, 9))
+    add("K2", "K2 : @S1@ : comptime { @S1@.{ a = 7, b = u8.[%s] } };" % ", ".join(str(r.randrange(1, 200)) for _ in range(c1)))
+    add("K3", "K3 :: comptime { @K2@.a + @K1@ };")
     if broken:
         # one type error inside one definition: the same diagnostics whatever the arrangement
         k = r.choice(["f1", "total", "wrap"])
@@ -57,6 +63,8 @@ def abstract_program(seed, broken=False):
             "    p2 := @pick@(@E1@.B.(%d)); emit(^p2, 4); nl();" % r.randrange(100),
             "    p3 := @pick@(@E1@.C); emit(^p3, 4); nl();",
             "    w := i32.(@wrap@(%d)); emit(^w, 4); nl();" % r.randrange(50),
+            "    k1 : i32 = @K1@; emit(^k1, 4); nl();",
+            "    k3 : i32 = @K3@; emit(^k3, 4); nl();",
             "    %d" % r.randrange(200),
             "}"]
     add("main", "\n".join(main))
